@@ -36,6 +36,38 @@ func commonLints(c *Ctx) {
 	if c.Prop == "C09" || c.Prop == "C19" {
 		elemAliasLint(c, p, pats)
 	}
+	if c.Prop != "C19" {
+		rule := c.Prop + ".errprop"
+		n := 0
+		var hits []Finding
+		for _, fn := range libFuncs(p, pats...) {
+			k, h := swallowedErrors(p, fn)
+			n += k
+			hits = append(hits, h...)
+		}
+		if n > 0 {
+			c.Rule(rule, "ERROR PROPAGATION: on the branch where the error returned by a callee is known to be non-nil, a function that itself returns an error does not return nil in its place (one reviewed exception: kzg.NewSRS on fr.Generator(4), unreachable)", 0)
+			c.Instance(rule, n)
+			reportFindings(c, p, rule, nil, hits, "")
+			c.Ob(rule, "-", "-", "error-branches-scanned", "-", true, "")
+		}
+	}
+	{
+		rule := c.Prop + ".rotate"
+		n := 0
+		var hits []Finding
+		for _, fn := range libFuncs(p, pats...) {
+			k, h := rotatedWithoutTemp(p, fn)
+			n += k
+			hits = append(hits, h...)
+		}
+		if n > 0 {
+			c.Rule(rule, "ROTATION WITHOUT TEMPORARY (the broken swap): no two consecutive assignments `o.f = g(o.h); o.h = o.f` (plain or fluent: z.A0.Neg(&z.A1); z.A1.Set(&z.A0)) — the second reads the field the first has just overwritten, the previous o.f is lost", 0)
+			c.Instance(rule, n)
+			reportFindings(c, p, rule, nil, hits, "")
+			c.Ob(rule, "-", "-", "consecutive-field-writes-scanned", "-", true, "")
+		}
+	}
 	if c.Prop != "C17" && c.Prop != "C19" {
 		rule := c.Prop + ".dead"
 		n := 0
